@@ -7,8 +7,10 @@ constant.go, constant_value.go, service.go, once.go, cycle.go, module.go `Walk`)
   mutates: the `linkOnce` flags, `TypedefSpec.root`, how far `FieldGroup.Link` has got in
   each struct, the linked defaults, `Constant.Type/Value`, `ServiceSpec.Parent`.
 * Every map the Go code ranges over is visited in an explicit order (`Orders`).
-* The recursion is indexed by `fuel` = nesting depth of `Link` calls, because the current
-  code does not terminate on some constant cycles (`Res.fuel` ≙ Go stack overflow).
+* The recursion is indexed by `fuel` = nesting depth of `Link` calls (`Res.fuel` ≙ Go stack
+  overflow): termination is a property to be established (C08), not built in. The in-progress
+  flags `Constant.linkingValue`, `ServiceSpec.linking`, `FieldSpec.linkingDefault` cut the
+  recursions that used not to end (findings D4, D5, D40, repaired).
 
 Lookups (`scope.LookupType` …) read `Module.Types/Constants/Services/Includes`, which
 `link` never changes (`m.Types[name] = typ.Link(m)` stores the same object back), so they
@@ -45,6 +47,9 @@ structure St where
   vpar : List ((Nat × Name) × (Nat × Name)) := []      -- ServiceSpec.Parent
   fflag : List (Nat × Name × Name) := []               -- linkOnce of FunctionSpec
   fdflt : List ((Nat × Name × Name × Nat) × CV) := []  -- linked Default of argument i
+  clink : List (Nat × Name) := []                      -- Constant.linkingValue is set
+  dlink : List (Nat × Name × Nat) := []                -- FieldSpec.linkingDefault is set (struct field i)
+  vlink : List (Nat × Name) := []                      -- ServiceSpec.linking is set
   reent : Bool := false  -- ghost: something still being linked was read (re-entrant use)
   deriving Repr, Inhabited
 
@@ -79,12 +84,29 @@ def ownerMark (o : FOwner) (i : Nat) (σ : St) : St :=
   | .strct sm sn => { σ with sdone := aset (sm, sn) (i + 1) σ.sdone }
   | _ => σ
 
-/-- `f.Default = <linked>` for field `i` -/
+/-- `f.linkingDefault = true` for field `i` (only struct fields are ever read back) -/
+def ownerBeginDflt (o : FOwner) (i : Nat) (σ : St) : St :=
+  match o with
+  | .strct sm sn => { σ with dlink := (sm, sn, i) :: σ.dlink }
+  | _ => σ
+
+/-- `f.Default = <linked>; f.linkingDefault = false` for field `i` -/
 def ownerSetDflt (o : FOwner) (i : Nat) (v : CV) (σ : St) : St :=
   match o with
-  | .strct sm sn => { σ with sdflt := aset (sm, sn, i) v σ.sdflt }
+  | .strct sm sn =>
+    { σ with sdflt := aset (sm, sn, i) v σ.sdflt, dlink := σ.dlink.filter (fun k => k != (sm, sn, i)) }
   | .args am svc fn => { σ with fdflt := aset (am, svc, fn, i) v σ.fdflt }
   | .excs _ _ _ => σ
+
+/-- `c.Value = <linked>; c.linkingValue = false` -/
+def endConst (k : Nat × Name) (v : CV) (σ : St) : St :=
+  { σ with cval := aset k v σ.cval, clink := σ.clink.filter (fun x => x != k) }
+
+/-- the deferred `s.linking = false` of `ServiceSpec.Link` -/
+def endService (k : Nat × Name) : Res St → Res St
+  | .ok σ => .ok { σ with vlink := σ.vlink.filter (fun x => x != k) }
+  | .err => .err
+  | .fuel => .fuel
 
 /-! ### the linker -/
 
@@ -159,7 +181,7 @@ def linkFields : Nat → GProg → FOwner → Nat → Nat → List GField → St
       match fld.dflt with
       | none => linkFields f p o m (i + 1) rest σ2
       | some d =>
-        match linkVal f p m d lt σ2 with
+        match linkVal f p m d lt (ownerBeginDflt o i σ2) with
         | .ok (σ3, v) =>
           let σ4 : St := ownerSetDflt o i v σ3
           linkFields f p o m (i + 1) rest σ4
@@ -176,11 +198,13 @@ def linkConst : Nat → GProg → Nat → Name → St → Res St
     match lookupConst p m n with
     | none => .err
     | some c =>
-      if σ.cflag.contains (m, n) then .ok σ else
+      if σ.cflag.contains (m, n) then
+        -- reached again while its own value is being linked: defined in terms of itself
+        (if σ.clink.contains (m, n) then .err else .ok σ) else
       match linkTy f p m c.ty { σ with cflag := (m, n) :: σ.cflag } with
       | .ok (σ1, lt) =>
-        match linkVal f p m c.val lt { σ1 with ctype := (m, n) :: σ1.ctype } with
-        | .ok (σ2, v) => .ok { σ2 with cval := aset (m, n) v σ2.cval }
+        match linkVal f p m c.val lt { { σ1 with ctype := (m, n) :: σ1.ctype } with clink := (m, n) :: σ1.clink } with
+        | .ok (σ2, v) => .ok (endConst (m, n) v σ2)
         | .err => .err
         | .fuel => .fuel
       | .err => .err
@@ -281,9 +305,10 @@ def linkVal : Nat → GProg → Nat → CV → LType → St → Res (St × CV)
         | some (mn, inm) =>
           match lookupType p m mn with
           | some (.enum items) =>
-            -- returned as is: no cast check against `t`
             match alookup inm items with
-            | some val => .ok (σ, .eref m mn inm val)
+            | some val =>
+              -- `EnumItemReference{…}.Link(scope, t)`
+              if rootIn p σ t = some (.named m mn) then .ok (σ, .eref m mn inm val) else .err
             | none => .err
           | _ =>
             match lookupInclude p m mn with
@@ -343,6 +368,8 @@ def linkSFields : Nat → GProg → Nat → Nat → Name → Nat → List GField
       match (match alookup (sm, sn, j) σ.sdflt with | some d => some d | none => fld.dflt) with
       | none => if fld.required then .err else linkSFields f p m sm sn (j + 1) rest fs σ
       | some d =>
+        -- the default is itself being linked: it depends on itself
+        if σ.dlink.contains (sm, sn, j) then .err else
         match linkVal f p m d (fieldTypeIn p σ sm sn j fld) σ with
         | .ok (σ1, v) => linkSFields f p m sm sn (j + 1) rest (aset fld.name v fs) σ1
         | .err => .err
@@ -431,25 +458,27 @@ def linkService : Nat → GProg → Orders → Nat → Name → St → Res St
     match lookupService p m n with
     | none => .err
     | some s =>
-      if σ.vflag.contains (m, n) then .ok σ else
+      if σ.vflag.contains (m, n) then
+        -- reached again while it is being linked: it inherits from itself
+        (if σ.vlink.contains (m, n) then .err else .ok σ) else
       match s.parent with
       | none =>
-        forEach (fun fname σ'' =>
+        endService (m, n) (forEach (fun fname σ'' =>
             match findFunc fname s.funcs with
             | some g => linkFunc f p m n g σ''
             | none => .ok σ'')
           (applyOrder (alookup n (o.at m).funcs |>.getD []) (s.funcs.map (·.name)))
-          { σ with vflag := (m, n) :: σ.vflag }
+          { { σ with vflag := (m, n) :: σ.vflag } with vlink := (m, n) :: σ.vlink })
       | some pname =>
-        match resolveSvc f p o m pname { σ with vflag := (m, n) :: σ.vflag } with
+        match resolveSvc f p o m pname { { σ with vflag := (m, n) :: σ.vflag } with vlink := (m, n) :: σ.vlink } with
         | .ok (σ1, pk) =>
           -- `parent.Link(scope)` is a no-op here: resolveService has linked it already
-          forEach (fun fname σ'' =>
+          endService (m, n) (forEach (fun fname σ'' =>
               match findFunc fname s.funcs with
               | some g => linkFunc f p m n g σ''
               | none => .ok σ'')
             (applyOrder (alookup n (o.at m).funcs |>.getD []) (s.funcs.map (·.name)))
-            { σ1 with vpar := aset (m, n) pk σ1.vpar }
+            { σ1 with vpar := aset (m, n) pk σ1.vpar })
         | .err => .err
         | .fuel => .fuel
 termination_by structural fuel => fuel
